@@ -52,6 +52,10 @@ Proof. exact response_routing. Qed.
 Theorem c08_answered_stays_unknown : forall s q is_exc e, InvR s -> find_key q (callbacks s) <> None ->
   find_key q (callbacks (req_step (req_step s (EResponse q is_exc)) e)) = None.
 Proof. exact answered_stays_unknown. Qed.
+Theorem c08_answered_stays_unknown_forever : forall s q is_exc evs, InvR s -> find_key q (callbacks s) <> None ->
+  find_key q (callbacks (fold_left req_step evs (req_step s (EResponse q is_exc)))) = None.
+Proof. exact answered_stays_unknown_forever. Qed.
+Print Assumptions c08_answered_stays_unknown_forever.
 Theorem c08_send_failure_unregisters : forall s cb, callbacks (req_step s (ERequest cb false)) = callbacks s.
 Proof. exact send_failure_unregisters. Qed.
 (* a response whose payload cannot be rebuilt at the requester (e.g. an exception class that cannot be re-created there): on a tree that
